@@ -578,7 +578,9 @@ fn enum_chunk(case: u64, chunk: u64, max_len: u32, n_seqs: u64, history: &[Strin
 fn random_case(seed: u64, i: u64, hs: &[Vec<String>]) -> CaseOut {
     let mut out = CaseOut::new();
     let mut rng = Rng::for_case(seed, "C20", i);
-    let extra: &[K] = &[K::Ch('x'), K::Ch('3'), K::Ch('_'), K::Ch('\u{2713}'), K::Ch('\t'), K::Ch('\u{7f}'), K::Ch('-'), K::Ch('\u{3000}')];
+    let extra: &[K] = &[K::Ch('x'), K::Ch('3'), K::Ch('_'), K::Ch('\u{2713}'), K::Ch('\t'), K::Ch('\u{7f}'), K::Ch('-'), K::Ch('\u{3000}'),
+        // printable characters whose code point, cut to eight bits, would be a control character or DEL
+        K::Ch('\u{1F600}'), K::Ch('\u{410}'), K::Ch('\u{41f}'), K::Ch('\u{11f}'), K::Ch('\u{192}'), K::Ch('\u{2019}'), K::Ch('\u{201c}'), K::Ch('\u{2013}'), K::Ch('\u{17f}'), K::Ch('\u{a0}'), K::Ch('\u{85}')];
     let mut evals = 0;
     for _ in 0..(if cfg!(miri) { 2 } else { 50 }) {
         let len = 20 + rng.below(if cfg!(miri) { 40 } else { 180 });
